@@ -331,4 +331,76 @@ theorem Ob_MapSlab_Set_heap_noRestructure (cfg : MCfg) (k : MKey) (v : Elem) (P 
 
 end
 
+/-! ### non-vacuity: the concrete 2-child index slab, threshold 40, the MODEL's element layer -/
+namespace mdsEx
+
+def cfg2 : MCfg := { T := 40, L := 4, climit := 0, addr := 1 }
+
+/-- the element layer given by the MODEL for `cfg2` -/
+def eb2 : DEnvB 0 :=
+  { eb0 with
+    elements_Get := fun g c d _ _ _ => mei_rGet c (HkeyElems.get (MElems.ops 0) cfg2 g 0 d)
+    elements_Remove := fun g c d _ _ _ => mei_rGRemove g c (HkeyElems.remove (MElems.ops 0) cfg2 g 0 d c)
+    elements_Set := fun g c _ _ d _ _ _ w' =>
+      match w' with
+      | .val v => mei_rGSet g c (HkeyElems.set (MElems.ops 0) cfg2 g 0 d v c)
+      | .key _ => (none, none, none, g, c) }
+
+theorem eb2_spec (k : MKey) (v : Elem) : ElemsSpec cfg2 k v (fun _ => True) eb2 where
+  size := fun _ => rfl
+  first := fun _ => rfl
+  get := fun _ _ _ => rfl
+  set := fun _ _ _ => rfl
+  remove := fun _ _ _ => rfl
+
+/-- a heap that holds the whole tree `mm` (root with the extra data `xx`) -/
+def s2 : MHSt 0 where
+  heap := fun i => if i = id0 then some (.metaSlab (md_meta mm (some xx)))
+    else if i = id1 then some (.dataSlab (md_data d1 none))
+    else if i = id2 then some (.dataSlab (md_data d2 none)) else none
+  ctx := { ctr := 3, eff := [] }
+
+def vv : Elem := default
+
+theorem ex_child_ok : (match MTree.set (r := 0) cfg2 0 d2 kk vv s2.ctx with
+    | .ok (_, _, t', _) => decide ((MTree.hdr 0 t').size < 2^32) && !(MTree.isFull cfg2.T 0 t') &&
+        (MTree.isUnderflow cfg2.T 0 t').isNone
+    | .error _ => true) = true := by decide
+
+theorem ex_path : mds_Path (r := 0) cfg2 kk vv (fun _ => True) 1 mm s2.ctx := by
+  refine ⟨by decide, by decide, d2, rfl, rfl, rfl, ⟨trivial, rfl, rfl⟩, ?_⟩
+  intro ks old child' c1 h
+  have hv := ex_child_ok
+  rw [h] at hv
+  simp only [Bool.and_eq_true, decide_eq_true_eq, Bool.not_eq_true', Option.isNone_iff_eq_none] at hv
+  exact ⟨hv.1.1, hv.1.2, hv.2⟩
+
+/-- `Ob_MapSlab_Set_heap_noRestructure` applies to the concrete tree over the concrete heap, and the model's `Set`
+    succeeds there (so the `.ok` branch is the one that is met) -/
+example : (∃ r, MTree.set (r := 0) cfg2 1 mm kk vv s2.ctx = .ok r) ∧
+    (match MTree.set (r := 0) cfg2 1 mm kk vv s2.ctx with
+      | .ok (ks, old, t', c') =>
+        ∃ s', MapSlab_Set (envD cfg2.T eb2 rs0) (MapMetaDataSlab_Set (envD cfg2.T eb2 rs0) 1) (md_tree 1 mm (some xx)) s2 ()
+            kk (u64 0) (u64 (kk.dig 0)) (.key kk) (.val vv) =
+              some (some (.key ks), old.map .val, none, md_tree 1 t' (some xx), s') ∧
+          s'.ctx = c' ∧ s'.popped = s2.popped ∧ mds_HeapRel s2.heap s'.heap 1 mm t' (some xx)
+      | .error e =>
+        MapSlab_Set (envD cfg2.T eb2 rs0) (MapMetaDataSlab_Set (envD cfg2.T eb2 rs0) 1) (md_tree 1 mm (some xx)) s2 () kk
+          (u64 0) (u64 (kk.dig 0)) (.key kk) (.val vv) = some (none, none, some e, md_tree 1 mm (some xx), s2)) :=
+  ⟨by
+    have h : (match MTree.set (r := 0) cfg2 1 mm kk vv s2.ctx with | .ok _ => true | .error _ => false) = true := by
+      decide
+    rcases hq : MTree.set (r := 0) cfg2 1 mm kk vv s2.ctx with e | r
+    · rw [hq] at h; cases h
+    · exact ⟨r, rfl⟩,
+   Ob_MapSlab_Set_heap_noRestructure eb2 rs0 cfg2 kk vv (fun _ => True) (eb2_spec kk vv) (by decide) (by decide)
+    (by decide) 1 1 mm (some xx) s2 (Nat.le_refl 1) ⟨rfl, fun c hc => by
+      rcases List.mem_cons.mp hc with rfl | hc
+      · rfl
+      · rcases List.mem_cons.mp hc with rfl | hc
+        · rfl
+        · cases hc⟩ rfl (by decide) ex_path⟩
+
+end mdsEx
+
 end Atree.TransEq
